@@ -97,6 +97,18 @@ pub fn run<C: Ciphersuite, L: Lab<C>>(lab: &mut L, p: &Params) {
             }
             let big = SecretShare::<C>::new(me, SigningShare::new(lab.adv_scalar("s'")), VerifiableSecretSharingCommitment::new(many));
             no_panic!(lab, "KeyPackage::try_from with an oversized commitment and arbitrary share", KeyPackage::try_from(big));
+            // lengths around the u16 range (a count kept in a u16 wraps): 65535, 65536, 65536 + t entries
+            // (concrete runs on the real suites only: a 65536-term symbolic sum does not fit the
+            // term arena — measured 49 GB)
+            let sizes: &[usize] = if lab.symbolic() || p.n != 2 { &[] } else { &[65536] };
+            for &extra in sizes {
+                let mut huge = sh.commitment().coefficients().to_vec();
+                let filler = huge[0];
+                huge.resize(huge.len() + extra, filler);
+                let n_entries = huge.len();
+                let hs = SecretShare::<C>::new(me, *sh.signing_share(), VerifiableSecretSharingCommitment::new(huge));
+                no_panic!(lab, &format!("KeyPackage::try_from with a commitment of {n_entries} entries"), KeyPackage::try_from(hs.clone()));
+            }
             no_panic!(lab, "reconstruct with no key packages", fc::keys::reconstruct::<C>(&[]));
             no_panic!(lab, "reconstruct with duplicated key packages", fc::keys::reconstruct::<C>(&[keys.0[&me].clone(), keys.0[&me].clone()]));
             no_panic!(lab, "PublicKeyPackage::from_commitment on an empty identifier set", PublicKeyPackage::<C>::from_commitment(&Default::default(), sh.commitment()));
@@ -129,6 +141,17 @@ pub fn run<C: Ciphersuite, L: Lab<C>>(lab: &mut L, p: &Params) {
                     no_panic!(lab, "part3 with a peer commitment of odd length", dkg::part3(&run.r2_secret[&me], &m, &r2));
                     let cm: BTreeMap<Identifier<C>, &VerifiableSecretSharingCommitment<C>> = m.iter().map(|(k, v)| (*k, v.commitment())).collect();
                     no_panic!(lab, "PublicKeyPackage::from_dkg_commitments with commitments of different lengths", PublicKeyPackage::<C>::from_dkg_commitments(&cm));
+                }
+                // a peer pads its commitment by 65536 entries (the length modulo 2^16 stays t);
+                // concrete runs only, as above
+                if !lab.symbolic() && p.n == 2 {
+                    let mut cs: Vec<CoefficientCommitment<C>> = r1[&sender].commitment().coefficients().to_vec();
+                    let filler = cs[0];
+                    cs.resize(cs.len() + 65536, filler);
+                    let mut m = r1.clone();
+                    m.insert(sender, round1::Package::new(VerifiableSecretSharingCommitment::new(cs), pok));
+                    no_panic!(lab, "part2 with a peer commitment padded by 65536 entries", dkg::part2(run.r1_secret[&me].clone(), &m));
+                    no_panic!(lab, "part3 with a peer commitment padded by 65536 entries", dkg::part3(&run.r2_secret[&me], &m, &r2));
                 }
                 no_panic!(lab, "part2 with no packages", dkg::part2(run.r1_secret[&me].clone(), &BTreeMap::new()));
                 no_panic!(lab, "part3 with no packages", dkg::part3(&run.r2_secret[&me], &BTreeMap::new(), &BTreeMap::new()));
